@@ -298,6 +298,22 @@ def run(ctx: core.Ctx):
             if n > 10001 + 1:
                 witness = witness or dict(kind="starvation", protocol=kind, sql=sql.decode(),
                                           problem=f"PING of another connection answered only after {n} rows of a non-suspending stream")
+    # real sockets, with and without TLS (own interpreter, real event loop): a client that logs in, asks for 40000 rows of 1000
+    # bytes and then does not read - after 1.5 s the server has pulled what the socket buffers hold, not the result
+    import json as _json, os as _os, subprocess as _sp, sys as _sys
+    here = _os.path.dirname(_os.path.dirname(_os.path.abspath(__file__)))
+    try:
+        outp = _sp.run([_sys.executable, _os.path.join(here, "tlsprobe.py"), "backpressure"], stdout=_sp.PIPE, stderr=_sp.DEVNULL, timeout=90, text=True).stdout
+        line = [l for l in outp.splitlines() if l.startswith("@@")]
+        sock = _json.loads(line[-1][2:]) if line else dict(plain_stalled_pulled="probe produced no result", tls_stalled_pulled="probe produced no result")
+    except Exception as e:  # noqa
+        sock = dict(plain_stalled_pulled=f"probe failed: {type(e).__name__}", tls_stalled_pulled="probe failed")
+    ctx.evals += 2
+    for k in ("plain_stalled_pulled", "tls_stalled_pulled"):
+        v = sock.get(k)
+        if (not isinstance(v, int) or v > 20000) and witness is None:
+            witness = dict(kind="back-pressure-real-socket", transport=("TLS" if k.startswith("tls") else "plain TCP"),
+                           problem=f"{v} of {sock.get('rows')} rows pulled while the client did not read for 1.5 s (the socket buffers hold a few thousand)")
     # inferred column types: the recorded open finding
     peek = inferred_peek_probe()
     ctx.evals += 1
@@ -319,10 +335,11 @@ def run(ctx: core.Ctx):
              "10000; a client that never reads, on a fresh connection and on one whose earlier stream to a stalled client completed / was "
              "killed while waiting in drain() / was killed inside the application; instrumented sources count pulls, the fake writer counts rows handed over; replayed on Model/Conn.v incl. its "
              "pulled / handed counters; a PING on a second connection during a 35000-row non-suspending stream with the real "
-             "asyncio.sleep; an unbounded source with an always-NULL inferred column. distinct = runs",
+             "asyncio.sleep; a stalled client on real loopback sockets, plain and over TLS (rows pulled in 1.5 s); an unbounded source with an "
+             "always-NULL inferred column. distinct = runs",
         samples=[dict(events=[e[:50] for e in drivers[3].events[:14]])], distinct=len(drivers),
         extra=dict(runs=len(drivers), worst_rows_ahead=max([s[1] for s in stats] or [0]), bound=B // 5 + 1,
-                   max_rows_per_iteration=max([s[2] for s in stats] or [0]), batch=batch, ping_answered_after_rows=at,
+                   max_rows_per_iteration=max([s[2] for s in stats] or [0]), batch=batch, ping_answered_after_rows=at, real_socket_stall=sock,
                    inferred_peek_rows=peek, disagreements=len(disagreements)),
         assumptions=["transport buffering after writer.write (asyncio high-water mark, kernel buffers) is not modelled: 'accepts' means "
                      "drain() returns; the fake writer keeps a memoryview of a bytearray written while paused (as the CPython 3.12 transport does)", "asyncio's FIFO ready queue"],
